@@ -157,7 +157,17 @@ def check(m, run):
     check_pivot(m, run, piv)
     pv2(m, run, piv)
     run.floor('PV2.pivot-companion', 3, 'matrix_inverse, matrix_determinant, lu_factor')
-    pv3(m, run, piv)
+    # the LU kernels are decided exactly on symbolic matrices (LA3); the rule that reads how lu_factor spells the permutation corroborates
+    from .. import skel_drivers as _sd
+    n0 = len(run.obs)
+    try:
+        _sd.la3(m, run)
+        la_ok = all(o.ok for o in run.obs[n0:])
+    except AnalysisError as ex:
+        run.error(str(ex))
+        la_ok = False
+    with run.corroborating(la_ok, 'LA3', rules=('PV3.rhs-permuted-like-the-matrix',)):
+        pv3(m, run, piv)
     # ---------------------------------------------------------------- AL identities
     check_cross(m, run)
     check_binomial(m, run)
